@@ -102,6 +102,23 @@ func init() {
 			evalQueries(o, r, f, p, turn)
 		})
 	})
+	register("playq", func(o *Out, r *rand.Rand, thorough bool) {
+		n := 250
+		if thorough {
+			n = 15000
+		}
+		lines(r, n, 40, func(start string, moves []string, feats map[string]bool) {
+			line := "chess playq " + start + " ; " + strings.Join(moves, " ")
+			o.do(line)
+			for k := range feats {
+				o.Count("line:" + k)
+			}
+			o.Count("line:total")
+			if len(feats) > 0 {
+				o.Nontrivial(line)
+			}
+		})
+	})
 	register("c02", func(o *Out, r *rand.Rand, thorough bool) {
 		playouts, synth := 100, 300
 		if thorough {
